@@ -16,6 +16,7 @@ CONSTANTS
   OwnVary <- MCOwnVary
   MaxReqs = 2
   WrongDesign = "none"
+  SameObj = FALSE
   MaxFaults = 1
 INVARIANT TypeOK
 INVARIANT ReqTopDown
